@@ -107,4 +107,11 @@ def lookup (env : List (String × Src)) (n : String) : Option Src :=
   | some p => some p.2
   | none => none
 
+/-- the value a parameter receives, given the positional values and the (name, value) pairs -/
+def valueOf {V : Type} (pos : List V) (named : List (String × V)) : Src → Option V
+  | .pos i => pos[i]?
+  | .named j => (named[j]?).map (·.2)
+  | .dflt => none
+
+
 end JrsVerif.Bind
